@@ -43,8 +43,8 @@ def hier(idx, prog):
 class C19(Property):
     id = "C19"
     prop_modules = ["CobaVerif.Props.C19"]
-    quick_n = 700
-    thorough_n = 12000
+    quick_n = 3000
+    thorough_n = 60000
     search_n = 1500
     case_timeout = 60
     workers = 8
